@@ -119,6 +119,11 @@ public:
   void set_error(Error&& error) && noexcept {
     auto* const op = op_;
 
+    // The error may live inside the completion operation (eg. in the result
+    // storage of a stop_when()); move it onto the stack before that operation
+    // is destroyed.
+    std::decay_t<Error> errorCopy{static_cast<Error&&>(error)};
+
     using completion_value_op_t =
         connect_result_t<CompletionSender, value_receiver>;
     unifex::deactivate_union_member<completion_value_op_t>(
@@ -128,7 +133,8 @@ public:
     unifex::deactivate_union_member<std::tuple<Values...>>(op->value_);
 
     unifex::set_error(
-        static_cast<Receiver&&>(op->receiver_), static_cast<Error&&>(error));
+        static_cast<Receiver&&>(op->receiver_),
+        static_cast<std::decay_t<Error>&&>(errorCopy));
   }
 
   void set_done() && noexcept {
@@ -307,9 +313,13 @@ public:
       (requires receiver<Receiver, Error>)  //
       void set_error(Error&& error) && noexcept {
     auto* const op = op_;
+    // The error may live inside the completion operation; move it onto the
+    // stack before that operation is destroyed.
+    std::decay_t<Error> errorCopy{static_cast<Error&&>(error)};
     unifex::deactivate_union_member(op->completionDoneOp_);
     unifex::set_error(
-        static_cast<Receiver&&>(op->receiver_), static_cast<Error&&>(error));
+        static_cast<Receiver&&>(op->receiver_),
+        static_cast<std::decay_t<Error>&&>(errorCopy));
   }
 
   void set_done() && noexcept {
